@@ -57,7 +57,12 @@ def run(eng, rep, tier):
                 if isinstance(c, ast.Call) and isinstance(c.func, ast.Attribute) and c.func.attr in ("add_node", "add_edge"):
                     written |= {k.arg for k in c.keywords if k.arg}
         read = set()
-        for c in ast.walk(K(r)):
+        for c in [x for fn_ in code_nodes(prog, r) for x in ast.walk(fn_)]:      # the reader and the helpers it calls
+            if isinstance(c, ast.Call) and isinstance(c.func, ast.Attribute) and c.func.attr in ("nodes", "edges"):
+                # graph.edges(data="label") / graph.nodes(data="is_start"): the attribute named by `data` is read
+                for kw in c.keywords:
+                    if kw.arg == "data" and isinstance(kw.value, ast.Constant) and isinstance(kw.value.value, str):
+                        read.add(kw.value.value)
             if isinstance(c, ast.Call) and isinstance(c.func, ast.Attribute) and c.func.attr == "get" and c.args and \
                     isinstance(c.args[0], ast.Constant) and isinstance(c.args[0].value, str):
                 read.add(c.args[0].value)
@@ -71,6 +76,33 @@ def run(eng, rep, tier):
                   "from_networkx reads %s, all written by to_networkx" % sorted(read),
                   "from_networkx reads graph attributes %s that to_networkx does not write" % sorted(read - written), None,
                   site=site_of(prog, r, r.node))
+        # the two marks are independent: a node can be start AND final, so the test of one mark must not sit in the
+        # else-branch of the test of the other (`if start: .. elif final: ..` drops the final mark of a start state)
+        def _mark_of(test, fn_):
+            """which mark ("is_start" / "is_final") a test reads - directly or through a local bound to the read"""
+            from .flow import inline_locals as _il
+            got = set()
+            for e in _il(fn_, test):
+                for x in ast.walk(e):
+                    if isinstance(x, ast.Constant) and x.value in ("is_start", "is_final"):
+                        got.add(x.value)
+            return got
+        exclusive = None
+        for fn_ in code_nodes(prog, r):
+            for st_ in ast.walk(fn_):
+                if isinstance(st_, ast.If) and st_.orelse:
+                    m1 = _mark_of(st_.test, fn_)
+                    if len(m1) == 1:
+                        other_mark = ({"is_start", "is_final"} - m1).pop()
+                        for o in st_.orelse:
+                            for inner in ast.walk(o):
+                                if isinstance(inner, ast.If) and other_mark in _mark_of(inner.test, fn_):
+                                    exclusive = st_
+        ob.decide("R7", "C20.1", r, "start-and-final-marks-independent:" + cname, exclusive is None,
+                  "the start mark and the final mark of a node are read independently of each other",
+                  "the final (start) mark of a node is only looked at when the other mark is absent: a state that is both "
+                  "start and final loses one of the two", None,
+                  site=site_of(prog, r, exclusive if exclusive is not None else r.node))
         need = {"is_start", "is_final", "label"}
         ob.decide("R7", "C20.1", r, "start-final-label-read:" + cname, need <= read,
                   "start marking, final marking and edge labels are read back",
@@ -259,13 +291,20 @@ def run(eng, rep, tier):
     boxes = [ev for ev in own(se) if ev.kind == "new" and ev.callee == BOX]
     mins = [ev for ev, _ in calls(se, "minimize", own=True)]
     rx = [ev for ev in own(se) if ev.kind == "new" and ev.callee.endswith("regex.Regex")]
-    okb = len(boxes) >= 2 and bool(mins) and bool(rx) and all(ev.args and any(ev.args[0].alias & m.result.alias for m in mins)
-                                                              for ev in boxes)
+    def _from_min(av):
+        """the automaton put into a box: the result of minimize(), or the automaton of a box already built here"""
+        if any(av.alias & m.result.alias for m in mins):
+            return True
+        return bool(av.alias) and all(l[0].startswith("fresh:") and l[1] and l[1][-1] in ("_dfa", "dfa") for l in av.alias)
+    okb = len(boxes) >= 2 and bool(mins) and bool(rx) and all(ev.args and _from_min(ev.args[0]) for ev in boxes)
     ob.decide("R1", "C20.3", fe, "box=minimised-regex-automaton", okb,
               "each box holds Regex(body).to_epsilon_nfa().minimize()",
               "a box of from_ebnf is not the minimised automaton of its body's regex", se, site=site_of(prog, fe, fe.node))
     # a Box is built inside a loop / comprehension over the (head, body) items of a mapping
     def _over_items(it):
+        # the (head, alternatives) groups: the items of a mapping, or itertools.groupby over the (head, body) pairs
+        if isinstance(it, ast.Call) and getattr(it.func, "id", getattr(it.func, "attr", None)) == "groupby":
+            return True
         return isinstance(it, ast.Call) and isinstance(it.func, ast.Attribute) and it.func.attr == "items"
     from .flow import helpers_of
     _hs = helpers_of(prog, fe)
